@@ -9,12 +9,12 @@ struct PlusOne : public GraphProcessor {
   uint64_t id {0};
   ANYFLOW_INTERFACE(ANYFLOW_DEPEND_DATA(uint64_t, a, 0) ANYFLOW_EMIT_DATA(uint64_t, x))
 };
-GraphBuilder* builder; Graph* graph; GraphData* A; GraphData* B; GraphData* C; uint64_t result; int rc;
+GraphBuilder* builder; Graph* graph; GraphData* A; GraphData* B; GraphData* C; uint64_t result; int rc; int rc_finish = -99;
 extern "C" void vf_init() {
   builder = new GraphBuilder;
   { auto& v = builder->add_vertex([] { auto p = std::unique_ptr<PlusOne>(new PlusOne); p->id = 0; return p; }); v.named_depend("a").to("A"); v.named_emit("x").to("B"); }
   { auto& v = builder->add_vertex([] { auto p = std::unique_ptr<PlusOne>(new PlusOne); p->id = 1; return p; }); v.named_depend("a").to("B"); v.named_emit("x").to("C"); }
-  builder->finish();
+  rc_finish = builder->finish();
   graph = builder->build().release();
   A = graph->find_data("A"); B = graph->find_data("B"); C = graph->find_data("C");
 }
